@@ -898,6 +898,9 @@ class SymReal:
         raise HarnessError('SymReal ** non-small-int not modelled')
 
     def _c(self, o, f):
+        if isinstance(o, (float, np.floating)) and (np.isinf(o) or np.isnan(o)):
+            # a symbolic real is finite: compare against +-inf / nan concretely
+            return bool(f(0.0, float(o)))
         b = self._b(o)
         return b if b is NotImplemented else SymBool(f(self.t, b.t))
 
@@ -975,8 +978,11 @@ class Stats:
 
 
 class Engine:
-    def __init__(self, max_paths=20000, max_decisions=4000, timeout_ms=60000, name=''):
+    def __init__(self, max_paths=20000, max_decisions=4000, timeout_ms=60000, name='', incremental=True):
         self.name = name
+        # incremental=False: every feasibility check runs in a fresh solver (z3's incremental core
+        # has no fpa2bv/sat preprocessing: floating-point path conditions are ~100x slower there)
+        self.incremental = incremental
         self.max_paths = max_paths
         self.max_decisions = max_decisions
         self.timeout_ms = timeout_ms
@@ -1055,9 +1061,20 @@ class Engine:
     # -- solver
     def _check(self, *extra):
         t0 = time.time()
-        r = self.solver.check(*extra)
+        if self.incremental:
+            r = self.solver.check(*extra)
+        else:
+            s = z3.Solver()
+            s.set('timeout', self.timeout_ms)
+            s.add(*self.solver.assertions())
+            s.add(*extra)
+            r = s.check()
+            self._fresh_solver = s
         self.stats.solver_time += time.time() - t0
         return r
+
+    def _last_model(self):
+        return self.solver.model() if self.incremental else self._fresh_solver.model()
 
     def check_sat(self, terms, timeout_ms=None) -> Tuple[str, Optional[z3.ModelRef]]:
         """Stand-alone query (not tied to the current path)."""
@@ -1112,7 +1129,7 @@ class Engine:
                 raise Inconclusive(f'solver unknown ({self.solver.reason_unknown()})')
             if r == z3.unsat:
                 raise Abort()
-            self.model = self.solver.model()
+            self.model = self._last_model()
         return self.model
 
     def branch(self, t) -> bool:
@@ -1178,7 +1195,7 @@ class Engine:
             raise Inconclusive('realise: solver unknown')
         if r == z3.unsat:
             raise Abort()
-        v = self.solver.model().eval(t, model_completion=True).as_long()
+        v = self._last_model().eval(t, model_completion=True).as_long()
         if len(excluded) > 4096:
             raise Inconclusive('realisation domain larger than 4096 values')
         self.work.append(self.prefix[:self.pos] + [('nv', excluded + [v])])
@@ -1301,3 +1318,119 @@ def term_of(x, sort='int'):
 def bool_term(x):
     """Boolean 'is nonzero / is true' term of a cell."""
     return term_of(x, 'bool')
+
+
+# --------------------------------------------------------------------------------------
+# SymFP: IEEE-754 double, round-to-nearest-even (used where rounding IS the subject: C19)
+
+_F64 = z3.Float64()
+_RNE = z3.RNE()
+
+
+class SymFP:
+    __slots__ = ('t',)
+    __array_priority__ = 1000
+
+    def __init__(self, t):
+        self.t = t
+
+    @staticmethod
+    def lift(o):
+        if isinstance(o, SymFP):
+            return o
+        if isinstance(o, (bool, np.bool_, int, np.integer)):
+            return SymFP(z3.FPVal(float(int(o)), _F64))
+        if isinstance(o, (float, np.floating)):
+            return SymFP(z3.FPVal(float(o), _F64))
+        return None
+
+    @staticmethod
+    def from_decimal(num_int_term, pow10: int):
+        """Correctly rounded double of num/10^pow10 (num an Int/BV term or int, |num| < 2^53): this is
+        what float('<decimal literal>') returns."""
+        if isinstance(num_int_term, int):
+            n = z3.FPVal(float(num_int_term), _F64)
+        elif z3.is_bv(num_int_term):
+            n = z3.fpSignedToFP(_RNE, num_int_term, _F64)
+        else:
+            raise HarnessError('from_decimal needs a bit-vector or int numerator')
+        return SymFP(z3.fpDiv(_RNE, n, z3.FPVal(float(10 ** pow10), _F64)))
+
+    def __repr__(self):
+        return f'SymFP({self.t})'
+
+    def _b(self, o):
+        if isinstance(o, np.ndarray):
+            return NotImplemented
+        r = SymFP.lift(o)
+        return NotImplemented if r is None else r
+
+    def __add__(self, o):
+        b = self._b(o)
+        return b if b is NotImplemented else SymFP(z3.fpAdd(_RNE, self.t, b.t))
+    __radd__ = __add__
+
+    def __sub__(self, o):
+        b = self._b(o)
+        return b if b is NotImplemented else SymFP(z3.fpSub(_RNE, self.t, b.t))
+
+    def __rsub__(self, o):
+        b = self._b(o)
+        return b if b is NotImplemented else SymFP(z3.fpSub(_RNE, b.t, self.t))
+
+    def __mul__(self, o):
+        b = self._b(o)
+        return b if b is NotImplemented else SymFP(z3.fpMul(_RNE, self.t, b.t))
+    __rmul__ = __mul__
+
+    def __truediv__(self, o):
+        b = self._b(o)
+        return b if b is NotImplemented else SymFP(z3.fpDiv(_RNE, self.t, b.t))
+
+    def __rtruediv__(self, o):
+        b = self._b(o)
+        return b if b is NotImplemented else SymFP(z3.fpDiv(_RNE, b.t, self.t))
+
+    def __neg__(self):
+        return SymFP(z3.fpNeg(self.t))
+
+    def _c(self, o, f):
+        b = self._b(o)
+        return b if b is NotImplemented else SymBool(f(self.t, b.t))
+
+    def __lt__(self, o):
+        return self._c(o, z3.fpLT)
+
+    def __le__(self, o):
+        return self._c(o, z3.fpLEQ)
+
+    def __gt__(self, o):
+        return self._c(o, z3.fpGT)
+
+    def __ge__(self, o):
+        return self._c(o, z3.fpGEQ)
+
+    def __eq__(self, o):
+        if isinstance(o, (str, type(None))):
+            return False
+        return self._c(o, z3.fpEQ)
+
+    def __ne__(self, o):
+        if isinstance(o, (str, type(None))):
+            return True
+        return self._c(o, lambda a, b: z3.Not(z3.fpEQ(a, b)))
+
+    __hash__ = None  # type: ignore
+
+    def floor(self):
+        return SymFP(z3.fpRoundToIntegral(z3.RTN(), self.t))
+
+    def __int__(self):
+        """int(x): truncation toward zero; realised (forks over the feasible values)."""
+        bv = z3.fpToSBV(z3.RTZ(), self.t, z3.BitVecSort(32))
+        return engine().realise_int(z3.BV2Int(bv, is_signed=True))
+
+    def ceil_int(self, bits=32):
+        """ceil(x) as a signed bit-vector (numpy's arange length)."""
+        r = z3.fpRoundToIntegral(z3.RTP(), self.t)
+        return z3.fpToSBV(z3.RTZ(), r, z3.BitVecSort(bits))
